@@ -200,10 +200,13 @@ def goals_of(idx, c, o):
     parts = [("re", "fst %s / %s" % (inner, n), v.real), ("im", "snd %s / %s" % (inner, n), v.imag)]
   else:
     parts = [("re", "fst %s" % spec, v.real), ("im", "snd %s" % spec, v.imag)]
+  # multiples of fl(pi)/m sit next to zeros of sin / cos, where Interval needs more precision
+  k = c["w"] / (math.pi / 48)
+  tac = "c12_enclose_hi" if c["w"] != 0.0 and abs(k - round(k)) < 1e-9 else "c12_enclose"
   out = []
   for nm, e, val in parts:
     out.append(("g%d_%s" % (idx, nm),
-                "Lemma g%d_%s : Rabs (%s - %s) <= %s.\nProof. c12_enclose. Qed.\n" % (idx, nm, e, rlit(val), tol)))
+                "Lemma g%d_%s : Rabs (%s - %s) <= %s.\nProof. %s. Qed.\n" % (idx, nm, e, rlit(val), tol, tac)))
   return out
 
 
